@@ -3,23 +3,38 @@
 A model is a nested tuple
     ('a', base, feat)            feat = None | str | ((k,v),(k,v),(k,v))
     ('f', left, slash, right)
-built from a Category by field access only (`model_of`) or by the generators
+built from a Category by attribute access only (`model_of`) or by the generators
 directly.  It has its own printer (`canon`) and its own reader (`read`) written
 from the documented text grammar, not from depccg/cat.py.
 """
 from string import ascii_letters
 
 
+_MISSING = object()
+
+
+def feat_model(f):
+    """feature -> None | str | ((k,v),(k,v),(k,v)), through the public interface of the feature classes
+    (`items()` of three-part features, `value` of unary ones, their text as a last resort); how a class stores its
+    parts, and whether 'no feature' is None or the empty string, is not looked at"""
+    if f is None:
+        return None
+    items = getattr(f, 'items', None)
+    if callable(items):
+        return tuple((str(k), str(v)) for k, v in items())
+    v = getattr(f, 'value', _MISSING)
+    if v is _MISSING:
+        v = str(f)
+        if '=' in v:
+            return tuple(tuple(kv.split('=', 1)) for kv in v.split(','))
+    return None if v is None or v == '' else v
+
+
 def model_of(c):
-    """by field access only"""
-    if hasattr(c, 'left') and hasattr(c, 'right') and hasattr(c, 'slash'):
+    """by attribute access only (never through the category printer, which is itself under test)"""
+    if c.is_functor:
         return ('f', model_of(c.left), c.slash, model_of(c.right))
-    f = c.feature
-    if hasattr(f, 'kv1'):
-        v = (tuple(f.kv1), tuple(f.kv2), tuple(f.kv3))
-    else:
-        v = f.value
-    return ('a', c.base, v)
+    return ('a', c.base, feat_model(c.feature))
 
 
 def to_cat(m):
@@ -28,6 +43,14 @@ def to_cat(m):
         return Functor(to_cat(m[1]), m[2], to_cat(m[3]))
     f = m[2]
     if isinstance(f, tuple):
+        if len({k for k, _ in f}) < len(f):
+            # a repeated attribute key: kept in the generators because today's classes accept it, but nothing
+            # promises that such a value can be built
+            try:
+                return Atom(m[1], TernaryFeature(*[tuple(kv) for kv in f]))
+            except Exception as ex:
+                from vlib.runner import OutOfDomain
+                raise OutOfDomain(str(ex))
         return Atom(m[1], TernaryFeature(*[tuple(kv) for kv in f]))
     if f is None:
         return Atom(m[1])
